@@ -366,6 +366,11 @@ pub fn run_check(pc: &PropertyCheck, tier: &str, batch_seed: u64) -> i32 {
     extra.insert("configuration_cells".into(), json!(cells));
     extra.insert("run_endings".into(), json!(ends));
     extra.insert("families".into(), Value::Array(fam_stats));
+    if let Ok(m) = crate::oracle::ORACLE_REACH.lock() {
+        if !m.is_empty() {
+            extra.insert("oracle_reach".into(), json!(m.iter().map(|(k, v)| ((*k).to_string(), *v)).collect::<std::collections::BTreeMap<String, u64>>()));
+        }
+    }
     extra.insert("determinism_rechecks".into(), json!({"re_executed": recheck, "diverged": nondeterministic}));
     extra.insert(
         "known_findings_observed".into(),
